@@ -29,6 +29,55 @@ Theorem C07_lzma1_no_byte_lost : forall (PS : Type) (parse : PS -> Z -> Z -> str
 Proof. exact lzma1_run_exact. Qed.
 Print Assumptions C07_lzma1_no_byte_lost.
 
+(* LZMA2Writer (XZWriter forwards its slices to one LZMA2Writer per block) under EVERY call history
+   with flushes, with or without chunk_size, EVERY parser strategy and range-coder oracle: no
+   panic (every buffer index is inside the buffer, including the slices the uncompressed fallback
+   copies out of the window — false for the two earlier history policies, see
+   uncompressed_fallback_in_window_*_refuted in EncWindowProofs.v), the loops' fuel suffices, every
+   write() returns the length of its slice, and when finish() succeeds every accepted byte is in
+   exactly one chunk and the coded symbols plus the read-ahead bytes taken over by uncompressed
+   chunks cover exactly the bytes accepted. *)
+Theorem C07_lzma2_no_byte_lost : forall (PS : Type) (parse : PS -> Z -> Z -> strat PS) (chunkc : PS -> Z -> Z * PS) (ps0 : PS)
+    normal bt4 dict nice preset chunk ops,
+  opts_ok dict nice ->
+  (match preset with Some plen => 0 <= plen | None => True end) ->
+  ops_ok ops -> ops_total ops <= 4611686018427387904 ->
+  okor (do s <- l2_new_repaired PS normal bt4 dict nice preset chunk ps0; l2_run PS parse chunkc s ops [])
+       (fun r =>
+          let '(s1, res) := r in
+          let '(rs, c, fin) := l2_results 0 ops in
+          res = rs /\ sum_fill (l2_tr _ s1) = c /\
+          (fin = true -> sum_chunk (l2_tr _ s1) = c /\ sum_sym (l2_tr _ s1) + sum_abs (l2_tr _ s1) = c)).
+Proof. exact lzma2_run_exact. Qed.
+Print Assumptions C07_lzma2_no_byte_lost.
+
+(* The uncompressed fallback of the two earlier window-history policies reads before the start of
+   the buffer (model: Panic P_INDEX = the Rust slice-index panic in copy_uncompressed). *)
+Theorem C07_uncompressed_fallback_old_refuted :
+  l2_replay 2 false false 4096 273 None None old_mode_witness_ops old_mode_witness_ds = Panic P_INDEX.
+Proof. exact uncompressed_fallback_in_window_old_refuted. Qed.
+Print Assumptions C07_uncompressed_fallback_old_refuted.
+
+Theorem C07_uncompressed_fallback_max_refuted :
+  l2_replay 1 true false 4096 273 None None old_max_witness_ops old_max_witness_ds = Panic P_INDEX.
+Proof. exact uncompressed_fallback_in_window_max_refuted. Qed.
+Print Assumptions C07_uncompressed_fallback_max_refuted.
+
+(* The .lzma clause of C18 (declared size): what every call returns is the function [l1_results]
+   of the slice lengths and the declared size; a successful finish means declared = accepted =
+   coded. *)
+Theorem C07_lzma_expected_size : forall (PS : Type) (parse : PS -> Z -> Z -> strat PS) (ps0 : PS)
+    normal bt4 dict nice ex ops,
+  opts_ok dict nice -> ops_ok ops -> ops_total ops <= U32_MAX ->
+  okor (do s <- l1_new PS normal bt4 dict nice None (Some ex) ps0; l1_run PS parse s ops [])
+       (fun r =>
+          let '(s1, res) := r in
+          let '(rs, c, fin) := l1_results (Some ex) 0 ops in
+          res = rs /\ sum_fill (l1_tr _ s1) = c /\
+          (fin = true -> ex = c /\ sum_sym (l1_tr _ s1) = ex)).
+Proof. exact lzma_expected_size. Qed.
+Print Assumptions C07_lzma_expected_size.
+
 (* DeltaWriter / DeltaReader: the output for a history of slices is the output for their
    concatenation (shared with C11). *)
 Theorem C07_delta_write_partition : forall d parts,
